@@ -522,15 +522,15 @@ def run_writer_check(prop, tier, seed, faults, design_ref):
     corpus = load_corpus(prop)
     cases += corpus
     if thorough:
-        scope = (4, 4 if not faults else 3, 4 if faults else 0)
+        scope = (5, 5 if not faults else 4, 4 if faults else 0)
     else:
         scope = (3, 4 if not faults else 3, 4 if faults else 0)
     ex = gen_exhaustive(scope[0], scope[1], 1, scope[2], faults)
     cases += ex
-    cases += gen_boundary(rng, 20000 if thorough else 3000, faults)
-    cases += gen_random(rng, 20000 if thorough else 1500, faults)
-    cases += gen_large(rng, 600 if thorough else 40, faults)
-    spy = gen_spy(rng, 5000 if thorough else 500, faults)
+    cases += gen_boundary(rng, 300000 if thorough else 3000, faults)
+    cases += gen_random(rng, 100000 if thorough else 1500, faults)
+    cases += gen_large(rng, 3000 if thorough else 40, faults)
+    spy = gen_spy(rng, 50000 if thorough else 500, faults)
     try:
         impl = common.run_harness("mlw", cases)
         model = common.run_model("mlw", cases)
